@@ -415,7 +415,14 @@ class VN:
 
     def index_key(self, s):
         if isinstance(s, ast.Tuple):
-            return ("ix",) + tuple(self.index_key(x) for x in s.elts)
+            ks = [self.index_key(x) for x in s.elts]
+            # a trailing full slice selects nothing: x[i, :] is x[i]
+            if not any(isinstance(x, ast.Constant) and (x.value is Ellipsis or x.value is None) for x in s.elts):
+                while len(ks) > 1 and ks[-1] == ("slice", None, None, None):
+                    ks.pop()
+                if len(ks) == 1:
+                    return ks[0]
+            return ("ix",) + tuple(ks)
         if isinstance(s, ast.Slice):
             return ("slice", self.expr(s.lower).key() if s.lower else None, self.expr(s.upper).key() if s.upper else None,
                     self.expr(s.step).key() if s.step else None)
